@@ -75,20 +75,23 @@ func goFuncsOf(gdir string) map[string][]goFunc {
 
 // waFuncCanon prints the signature and body of a Wa function with the receiver spelled recv.
 func waFuncCanon(fd *waFuncDecl, recv string) (sig, body string) {
-	o := &canonOpts{Rename: map[string]string{}}
+	pre := map[string]string{}
 	stmts := fd.Decl.Body.List
 	if recv != "" {
-		o.Rename["this"] = recv
+		pre["this"] = "$recv"
 		if len(stmts) > 0 {
+			// a leading `d := this` gives the receiver the name Go's method uses
 			if as, ok := stmts[0].(*waast.AssignStmt); ok && len(as.Lhs) == 1 && len(as.Rhs) == 1 {
 				l, lok := as.Lhs[0].(*waast.Ident)
 				r, rok := as.Rhs[0].(*waast.Ident)
-				if lok && rok && r.Name == "this" && l.Name == recv {
+				if lok && rok && r.Name == "this" {
+					pre[l.Name] = "$recv"
 					stmts = stmts[1:]
 				}
 			}
 		}
 	}
+	o := &canonOpts{Rename: canonLocals(pre, fd.Decl.Type.Params, fd.Decl.Type.Results, stmts)}
 	var parts []string
 	for _, s := range stmts {
 		parts = append(parts, canonAST(s, o))
@@ -97,7 +100,11 @@ func waFuncCanon(fd *waFuncDecl, recv string) (sig, body string) {
 }
 
 func goFuncCanon(g goFunc) (sig, body string) {
-	o := &canonOpts{}
+	pre := map[string]string{}
+	if g.Recv != "" {
+		pre[g.Recv] = "$recv"
+	}
+	o := &canonOpts{Rename: canonLocals(pre, g.Decl.Type.Params, g.Decl.Type.Results, g.Decl.Body.List)}
 	var parts []string
 	for _, s := range g.Decl.Body.List {
 		parts = append(parts, canonAST(s, o))
